@@ -171,6 +171,14 @@ func MultiPolygon(box orb.Bound, mp orb.MultiPolygon, o orb.Orientation) orb.Mul
 	return result
 }
 
+// inside is true for points strictly inside the bound. An open ring that
+// ends on the boundary is a piece cut at the bound and is completed around
+// the bound, not closed by a chord through it.
+func inside(box orb.Bound, p orb.Point) bool {
+	return box.Min[0] < p[0] && p[0] < box.Max[0] &&
+		box.Min[1] < p[1] && p[1] < box.Max[1]
+}
+
 // clipRings will take a set of rings and clip them to the boundary.
 // It returns the open lineStrings with endpoints on the boundary and
 // the closed interior rings.
@@ -181,7 +189,7 @@ func clipRings(box orb.Bound, rings []orb.Ring) (open []orb.LineString, closed [
 			continue
 		}
 
-		if !r.Closed() && (box.Contains(r[0]) || box.Contains(r[len(r)-1])) {
+		if !r.Closed() && (inside(box, r[0]) || inside(box, r[len(r)-1])) {
 			r = append(r, r[0])
 		}
 		out := clip.LineString(box, orb.LineString(r), clip.OpenBound(true))
